@@ -37,7 +37,8 @@ def _build(ctx, cmd, tag, symbolic=True):
 
 
 def _observe(cls, c, probe_dict):
-    return {"cdb": list(c.cdb), "decoded": cls.unmarshall_cdb(c.cdb), "encoded": list(cls.marshall_cdb(probe_dict)),
+    # (copies: a later call must not be able to change what was observed earlier)
+    return {"cdb": list(c.cdb), "decoded": dict(cls.unmarshall_cdb(c.cdb)), "encoded": list(cls.marshall_cdb(probe_dict)),
             "datain_len": c.datain.sym_len() if hasattr(c.datain, "sym_len") else len(c.datain),
             "dataout": list(c.dataout) if not hasattr(c.dataout, "symlen") or c.dataout.symlen is None else "sym"}
 
@@ -52,7 +53,7 @@ def _same_obs(ctx, label, now, solo):
 
 def h_pairs(ctx, a, others):
     spec, cls, ca = _build(ctx, a, "a_")
-    probe = cls.unmarshall_cdb(ca.cdb)
+    probe = dict(cls.unmarshall_cdb(ca.cdb))
     solo = _observe(cls, ca, probe)
     ctx.check("repeating a marshalling call with equal inputs yields equal bytes",
               same(list(cls.marshall_cdb(probe)), ctx.oracle_struct(solo["encoded"])))
@@ -71,7 +72,7 @@ def h_pairs(ctx, a, others):
 def h_triple(ctx, a, b, c):
     """A built, then B and C built with symbolic arguments (in both orders), A observed in between"""
     spec, cls, ca = _build(ctx, a, "a_")
-    probe = cls.unmarshall_cdb(ca.cdb)
+    probe = dict(cls.unmarshall_cdb(ca.cdb))
     solo = _observe(cls, ca, probe)
     for first, second in ((b, c), (c, b)):
         s1, k1, c1 = _build(ctx, first, "x_%s_" % first[:3])
